@@ -307,7 +307,7 @@ func varInitBytes(c *Ctx, pkgShort, name string) []byte {
 	}
 	switch x := e.(type) {
 	case *ast.CallExpr: // []byte("...")
-		if len(x.Args) == 1 {
+		if _, isConv := x.Fun.(*ast.ArrayType); isConv && len(x.Args) == 1 {
 			if tv, ok := info.Types[x.Args[0]]; ok && tv.Value != nil && tv.Value.Kind() == constant.String {
 				return []byte(constant.StringVal(tv.Value))
 			}
